@@ -29,10 +29,21 @@ type c20op struct {
 	run  func(ue int) string
 }
 
+// c20key: the key of UE ue. The keys of different UEs are distinct but consist of the same sixteen octets, with two
+// middle octets exchanged per UE: they collide under every hash or index that ignores the order of the octets (XOR,
+// sum) or looks only at the first or last octets - the place where per-key state added to the library (a key schedule
+// cache, a per-key context) would be shared between UEs.
 func c20key(ue int, salt byte) [16]byte {
 	var k [16]byte
 	for i := range k {
-		k[i] = byte(ue*31+i*7) ^ salt
+		k[i] = byte(i*7+3) ^ salt
+	}
+	if ue > 0 {
+		a, b := 4+(ue-1)%4, 8+(ue-1)%4+((ue-1)/4)%4
+		k[a], k[b] = k[b], k[a]
+		for i := range k {
+			k[i] ^= byte((ue - 1) / 16) // (the free-running pass has up to 64 UEs: the XOR over the sixteen octets stays the same)
+		}
 	}
 	return k
 }
@@ -54,7 +65,10 @@ func c20ops() []c20op {
 
 var c20sequences = [][2]string{{"NEA1", "NIA1"}, {"NIA1(300 octets)", "NEA1(300 octets)"}, {"NEA2", "NIA2"}, {"NGAP-encode-decode", "NGAP builders"}, {"NAS-plain-codec", "NAS constructors"},
 	{"DeriveRESstarAndSetKey(OP only)", "DeriveRESstarAndSetKey"}, {"Milenage+KDF", "DeriveRESstarAndSetKey(OP only)"}, {"SUCI+CreateUE+capability", "identifier conversions"},
-	{"NASEncode(NIA1,NEA1)", "NASDecode(NIA1,NEA1)"}, {"NASEncode(NIA2,NEA2)", "NASDecode(NIA2,NEA0)"}, {"NAS constructors", "NASEncode(NIA2,NEA2)"}}
+	{"NASEncode(NIA1,NEA1)", "NASDecode(NIA1,NEA1)"}, {"NASEncode(NIA2,NEA2)", "NASDecode(NIA2,NEA0)"}, {"NAS constructors", "NASEncode(NIA2,NEA2)"},
+	// the same primitive twice with the same key (the second call meets what the first left behind for that key), and a
+	// refused encoding followed by a valid one (error paths release things, too)
+	{"NEA2", "NEA2"}, {"NIA2", "NIA2"}, {"NGAP refused encode", "NGAP-encode-decode"}}
 
 func c20single() []c20op {
 	msg := func(ue, n int) []byte { return pattern(3+ue, n) }
@@ -214,6 +228,11 @@ func c20single() []c20op {
 			b, e2 := tglib.GetUEContextReleaseComplete(int64(100+ue), int64(ue+1), []int64{int64(1 + ue)})
 			c, e3 := tglib.GetPDUSessionResourceReleaseResponse(int64(100+ue), int64(ue+1), int64(1+ue))
 			return fmt.Sprintf("%x %x %x %v %v %v", a, b, c, e1, e2, e3)
+		}},
+		{"NGAP refused encode", func(ue int) string {
+			// an AMF-UE-NGAP-ID below the type's lower bound: the encoder must refuse (what it says is not compared)
+			_, err := tglib.GetUplinkNASTransport(-1, int64(ue+1), msg(ue, 7))
+			return fmt.Sprint(err != nil)
 		}},
 	}
 }
